@@ -336,6 +336,7 @@ theorem c16_rebind_ops_frame (s : St) (xop : XOp) (hx : xop.writesThrough = fals
     (∀ l, l < s.heap.length → (stepX s xop).1.heap[l]? = s.heap[l]?) ∧
     ∃ c, ∀ i, i ≠ c → i < s.conts.length → (stepX s xop).1.conts[i]? = s.conts[i]? := by
   cases xop with
+  | poke d m k v => simp [XOp.writesThrough] at hx
   | base op =>
     have hns : ¬ IsSetSel op := by
       intro h; cases op <;> simp [IsSetSel] at h; simp [XOp.writesThrough] at hx
@@ -851,6 +852,7 @@ still computes what the plain tables compute (the handed-in array taken by value
 theorem stepX_refines {s : St} {ts : List Table} (g : GoodS s ts) (xop : XOp) (hx : xop.writesThrough = false) :
     GoodS (stepX s xop).1 (stepTX ts xop).1 ∧ (stepX s xop).2 = (stepTX ts xop).2 := by
   cases xop with
+  | poke d m k v => simp [XOp.writesThrough] at hx
   | base op =>
     have hns : ¬ IsSetSel op := by
       intro h; cases op <;> simp [IsSetSel] at h; simp [XOp.writesThrough] at hx
